@@ -158,7 +158,9 @@ class Check(object):
             'wall_s': round(time.time() - self.t0, 2),
             'violations': len(self.violations),
         }
-        if not getattr(self, 'replay_mode', False):     # a --replay run never overwrites the evidence of the check
+        # a --replay run never overwrites the evidence of the check; neither does a run against a scratch copy of the repository
+        # (tools/sweep.sh sets VERIF_NO_EVIDENCE: its runs are on seeded changes)
+        if not getattr(self, 'replay_mode', False) and not os.environ.get('VERIF_NO_EVIDENCE'):
             with open(os.path.join(EVID, self.pid + '.json'), 'w') as f:
                 json.dump(ev, f, indent=1, default=str)
         for line in lines:
